@@ -89,7 +89,8 @@ AsCoded(e, i) ==
            MatchesAsCodedRound(AsCodedRoundDiv(i.tag, TV(AsIntT(i.lt), J(e.l)), TV(AsIntT(i.rt), J(e.r))), e.out, J(e.res))
       [] e.e = "ElBin" -> AsCodedElBin(e, i)
       [] e.e = "Exp2" ->
-           LET r == AsCodedExp2(J(e.x), AsIntT(InnerT(i.lt)), ExpOf(i.lt)) IN ~r.ub /\ e.out = "ok" /\ J(e.res) = r.v
+           IF ExpOf(i.lt) >= 0 THEN FALSE
+           ELSE LET r == AsCodedExp2(J(e.x), AsIntT(InnerT(i.lt)), ExpOf(i.lt)) IN ~r.ub /\ e.out = "ok" /\ J(e.res) = r.v
       [] e.e = "FrFromFloat" ->
            IF e.x.c # "fin" THEN FALSE
            ELSE MatchesMakeFraction(AsCodedMakeFraction(e.x, i.lt.p, AsIntT(i.rt.num)), e.out, J(e.res[1]), J(e.res[2]))
